@@ -235,6 +235,7 @@ def funcs():
             defs.append(rs2lean.lean_def(f"{tag}_refuse_next", npar, "Bool", rs2lean.disj(nxt)))
         body += "\n\n" + "\n\n".join(defs)
     except Exception:                               # noqa  (Unsupported, or anything the parser trips over)
+        committed_snapshot(FUNCS)
         return True, False
     text = ("/-! GENERATED by tools/extract_consts.py (tools/rs2lean.py) from /repo's working tree — do not edit.\n"
             "    Pure decision functions of the code, translated from their Rust source. -/\nnamespace Gen\n\n"
@@ -250,8 +251,127 @@ def funcs():
         except Exception:                           # noqa
             ok = False
     if not ok:
+        committed_snapshot(FUNCS)
         return True, False
     with open(FUNCS, "w", encoding="utf-8") as f:
+        f.write(text)
+    return False, old is not None
+
+
+ATOMS = os.path.join(os.path.dirname(OUT), "Atoms.lean")
+
+N, B = "Nat", "Bool"
+
+
+def atoms_text():
+    """The arithmetic and the branch conditions ("atoms") of the zoom tilers, the coverage sweeps, the section cut and
+    the variable-step and fixed-step decoders, each translated from the expression found in the Rust source. Raises on any
+    reshaping the patterns do not recognise (=> extraction failure, previous snapshot stays)."""
+    import rs2lean as R
+    out = []
+
+    def emit(name, params, ret, e):
+        fv = R.free_vars(e)
+        names = [p for p, _ in params]
+        if not fv <= set(names):
+            raise R.Unsupported(f"{name}: free variables {sorted(fv - set(names))} are not parameters")
+        out.append(R.typed_def(name, params, ret, e))
+
+    # --- bigWig zoom tiler: process_val_zoom in bigwigwrite.rs -------------------------------------------------------
+    b = R.fn_region(read("bigtools/src/bbi/bigwigwrite.rs"), "process_val_zoom")
+    emit("wz_done", [("add_start", N), ("current_val_end", N)], B, R.cond_over(b, {"add_start", "current_val_end"}))
+    emit("wz_next_end", [("zoom2_start", N), ("zoom_item_size", N)], N, R.let_expr(b, "next_end"))
+    emit("wz_add_end", [("next_end", N), ("current_val_end", N)], N, R.let_expr(b, "add_end"))
+    emit("wz_update", [("add_end", N), ("add_start", N)], B, R.cond_over(b, {"add_end", "add_start"}))
+    emit("wz_added", [("add_end", N), ("add_start", N)], N, R.let_expr(b, "added_bases"))
+    emit("wz_close", [("add_end", N), ("next_end", N)], B, R.cond_over(b, {"add_end", "next_end"}))
+    emit("wz_next_start", [("add_end", N), ("current_val_start", N)], N, R.assign_expr(b, "add_start"))
+    fl = {"add_start", "current_val_end", "next_val_is_none", "options_items_per_slot", "zoom_item_live_info_is_none",
+          "zoom_item_records_is_empty", "zoom_item_records_len"}
+    emit("wz_flush", [("add_start", N), ("current_val_end", N), ("zoom_item_live_info_is_none", B), ("next_val_is_none", B),
+                      ("zoom_item_records_is_empty", B), ("zoom_item_records_len", N), ("options_items_per_slot", N)], B,
+         R.cond_over(b, fl))
+    # --- bigBed zoom path: process_val_zoom in bigbedwrite.rs (sweep, then the tiler over the flushed pieces) ----------
+    b = R.fn_region(read("bigtools/src/bbi/bigbedwrite.rs"), "process_val_zoom")
+    emit("bzs_split", [("item_end", N), ("o_end", N)], B, R.cond_over(b, {"item_end", "o_end"}, 0))
+    emit("bzs_tail", [("o_end", N), ("item_end", N)], B, R.cond_over(b, {"item_end", "o_end"}, 1))
+    emit("bzs_more", [("f_start", N), ("next_start", N)], B, R.closure_body(b, "f", {"f_start", "next_start"}))
+    emit("bzs_whole", [("removed_end", N), ("next_start", N)], B, R.cond_over(b, {"removed_end", "next_start"}))
+    emit("bz_done", [("add_start", N), ("removed_end", N)], B, R.cond_over(b, {"add_start", "removed_end"}))
+    emit("bz_next_end", [("zoom2_start", N), ("zoom_item_size", N)], N, R.let_expr(b, "next_end"))
+    emit("bz_add_end", [("next_end", N), ("removed_end", N)], N, R.let_expr(b, "add_end"))
+    emit("bz_update", [("add_end", N), ("add_start", N)], B, R.cond_over(b, {"add_end", "add_start"}))
+    emit("bz_added", [("add_end", N), ("add_start", N)], N, R.let_expr(b, "added_bases"))
+    emit("bz_close", [("add_end", N), ("next_end", N)], B, R.cond_over(b, {"add_end", "next_end"}))
+    emit("bz_next_start", [("add_end", N), ("removed_start", N)], N, R.assign_expr(b, "add_start"))
+    emit("bz_full", [("zoom_item_records_len", N), ("options_items_per_slot", N)], B,
+         R.cond_over(b, {"zoom_item_records_len", "options_items_per_slot"}))
+    # --- bigBed summary sweep and section cut: process_val in bigbedwrite.rs -------------------------------------------
+    b = R.fn_region(read("bigtools/src/bbi/bigbedwrite.rs"), "process_val", after="let add_interval_to_summary")
+    emit("bs_split", [("item_end", N), ("o_end", N)], B, R.cond_over(b, {"item_end", "o_end"}, 0))
+    emit("bs_tail", [("o_end", N), ("item_end", N)], B, R.cond_over(b, {"item_end", "o_end"}, 1))
+    emit("bs_more", [("f_start", N), ("next_start", N)], B, R.closure_body(b, "f", {"f_start", "next_start"}))
+    emit("bs_whole", [("removed_end", N), ("next_start", N)], B, R.cond_over(b, {"removed_end", "next_start"}))
+    emit("bs_part_len", [("next_start", N), ("removed_start", N)], N, R.let_expr(b, "len"))
+    emit("bs_skip", [("len", N)], B, R.cond_over(b, {"len"}))
+    cp = [("next_val_is_none", B), ("items_len", N), ("options_items_per_slot", N)]
+
+    def cut_cond(body):
+        # `if next_val.is_none() || items.len() >= max_items` with `let max_items = …options.items_per_slot…;` inlined
+        return R.subst(R.cond_over(body, {"next_val_is_none", "items_len", "max_items"}), "max_items", R.let_expr(body, "max_items"))
+    emit("bed_cut", cp, B, cut_cond(b))
+    b = R.fn_region(read("bigtools/src/bbi/bigwigwrite.rs"), "process_val")
+    emit("wig_cut", cp, B, cut_cond(b))
+    emit("wig_len", [("current_val_end", N), ("current_val_start", N)], N, R.let_expr(b, "len"))
+    # --- variable-step and fixed-step sections: get_block_values in bigwigread.rs --------------------------------------
+    b = R.fn_region(read("bigtools/src/bbi/bigwigread.rs"), "get_block_values", after="2 => {")
+    emit("var_end", [("chrom_start", N), ("item_span", N), ("item_step", N)], N, R.let_expr(b, "chrom_end", 0))
+    b = R.fn_region(read("bigtools/src/bbi/bigwigread.rs"), "get_block_values", after="3 => {")
+    emit("fixed_end", [("chrom_start", N), ("item_span", N), ("item_step", N)], N, R.let_expr(b, "chrom_end", 0))
+    emit("fixed_first", [("chrom_start", N)], N, R.let_expr(b, "curr_start"))
+    emit("fixed_advance", [("item_step", N), ("item_span", N)], N, R.assign_expr(b, "curr_start", "+="))
+    return ("/-! GENERATED by tools/extract_consts.py (tools/rs2lean.py) from /repo's working tree — do not edit.\n"
+            "    The arithmetic and branch conditions of the zoom tilers, the coverage sweeps, the section cut and the\n"
+            "    variable-step and fixed-step decoders, each translated from the expression in the Rust source. -/\nnamespace Gen\n\n"
+            + "\n\n".join(out) + "\n\nend Gen\n")
+
+
+def committed_snapshot(path):
+    """an extraction failure must leave the COMMITTED snapshot in place, not whatever an earlier run generated"""
+    import subprocess
+    verif = os.path.dirname(os.path.dirname(os.path.abspath(__file__)))
+    try:
+        p = subprocess.run(["git", "-C", verif, "show", "HEAD:" + os.path.relpath(path, verif)], capture_output=True, timeout=30)
+        if p.returncode == 0 and p.stdout and (not os.path.exists(path) or open(path, "rb").read() != p.stdout):
+            open(path, "wb").write(p.stdout)
+    except Exception:                               # noqa
+        pass
+
+
+def atoms():
+    """-> (failed?, changed?)"""
+    import subprocess
+    import tempfile
+    sys.path.insert(0, os.path.dirname(os.path.abspath(__file__)))
+    try:
+        text = atoms_text()
+    except Exception:                               # noqa
+        committed_snapshot(ATOMS)
+        return True, False
+    old = open(ATOMS, encoding="utf-8").read() if os.path.exists(ATOMS) else None
+    if old == text:
+        return False, False
+    with tempfile.TemporaryDirectory() as td:
+        tmp = os.path.join(td, "Atoms.lean")
+        open(tmp, "w", encoding="utf-8").write(text)
+        try:
+            ok = subprocess.run(["lean", tmp], capture_output=True, timeout=120).returncode == 0
+        except Exception:                           # noqa
+            ok = False
+    if not ok:
+        committed_snapshot(ATOMS)
+        return True, False
+    with open(ATOMS, "w", encoding="utf-8") as f:
         f.write(text)
     return False, old is not None
 
@@ -259,6 +379,8 @@ def funcs():
 def main():
     vals, failed = extract()
     ffailed, fchanged = funcs()
+    afailed, achanged = atoms()
+    fchanged = fchanged or achanged
     if failed:
         prev = previous()
         fill = {"AUTOSQL_LFIELD": (prev.get("AUTOSQL_LFIELD_A"), prev.get("AUTOSQL_LFIELD_B")),
@@ -272,7 +394,7 @@ def main():
     if old != text:
         with open(OUT, "w", encoding="utf-8") as f:
             f.write(text)
-    return failed + (["FUNCS(overlaps, range filters, preconditions)"] if ffailed else []), (old is not None and old != text) or fchanged
+    return failed + (["FUNCS(overlaps, range filters, preconditions)"] if ffailed else []) + (["ATOMS(tilers, sweeps, cut, step decoders)"] if afailed else []), (old is not None and old != text) or fchanged
 
 
 if __name__ == "__main__":
